@@ -89,7 +89,7 @@ CLAIMS["C10"] = dict(
     text="Write-back kernel of nudging (NudgingShiftSegment::updatePositionsFromSolver, the only place nudging writes a route) under contract: a fixed segment writes "
          "nothing (empty frame, so first/last points stay put); the written position is the solver position clamped into [minSpaceLimit,maxSpaceLimit]; the loop body "
          "writes exactly one coordinate of one indexed point and keeps the route's size (unbounded, one arbitrary index); whole function bounded (<= 4 indexes); "
-         "bounded (<= 4 segments): a nudging region is closed under overlapsWith; bounded (<= 2+2 checkpoints): channel limits respect checkpoints and bend spans together; fixedOrder only ever sets its shared out-parameter. "
+         "bounded (<= 4 segments): a nudging region is closed under overlapsWith; bounded (<= 2 earlier segments): a region's segment is constrained against every earlier segment it overlaps; bounded (<= 2+2 checkpoints): channel limits respect checkpoints and bend spans together; fixedOrder only ever sets its shared out-parameter. "
          "Which segments are fixed, ordering, channel computation, grouping and the resulting separation are undecided residue.",
     note=BASE_TB + "Assumed read-only contract for ConnRef::displayRoute(); Point::operator[]'s `?:` reference return rewritten to if/return (cbmc crash work-around); "
          "body+bounded-loop split for the write loop (DESIGN 2.9).",
